@@ -385,6 +385,49 @@ def r02_8(chk, P):
     return n
 
 
+def r02_9(chk, P):
+    chk.rule('R02.9', 'every decode table of a codebook exists whenever the book has entries: the pointer fields of `codebook` that the '
+             'decode routines of codebook.c read through (subscript or dereference) are assigned in vorbis_book_init_decode on '
+             'every path that returns success with used_entries possibly > 0 (K2 flags per field, K4 value of used_entries at the '
+             'return).  The decoders test used_entries, not the individual tables: a table built only for some kinds of book is '
+             'a NULL dereference as soon as another kind is used in that role (any book may serve as a classification book)')
+    import k2
+    need = set()
+    for F in P.functions():
+        if not F.file.endswith('codebook.c'):
+            continue
+        for e in F.pos:
+            nd = F.ex[e]
+            if nd['k'] == 'sub' or (nd['k'] == 'bin' and nd['op'] == '+') or (nd['k'] == 'un' and nd['op'] == '*'):
+                b = F.ex[F.strip_casts(nd['c'][0])]
+                if b['k'] == 'member' and b.get('record') == 'codebook' and b.get('t', '').rstrip().endswith('*'):
+                    need.add(b['field'])
+    chk.require(len(need) >= 3, f'codebook.c reads through only {sorted(need)}')
+    F = P.need('vorbis_book_init_decode')
+    setters = [(f'set:{f}', k2.stores_field('codebook', f, ops=('=',)), True) for f in sorted(need)]
+    A, h = k2.analyse(P, F, setters)
+    cid = F.params[0]['id']
+    per = {}
+    for (e, fl, v, env) in k2.ret_value_classes(A):
+        if v is None or not (v.lo <= 0 <= v.hi) or 0 in v.ne:
+            continue
+        ue = env.get(f'v{cid}->used_entries')
+        if ue is not None and ue.hi <= 0:
+            continue
+        for f in sorted(need):
+            per.setdefault(f, []).append((f'set:{f}' in fl, e, ue))
+    n = 0
+    for f in sorted(need):
+        rows = per.get(f, [])
+        bad = [r for r in rows if not r[0]]
+        n += 1
+        chk.ob('R02.9', F.name, f'decode-table-built:{f}', bool(rows) and not bad, F.where(bad[0][1]) if bad else F.where(),
+               f'{len(rows)} success-return states with entries, all with c->{f} assigned' if rows and not bad else
+               (f'success is returned (line {F.loc(bad[0][1])}) with used_entries {bad[0][2]} and c->{f} not assigned on the path: '
+                f'codebook.c reads through it whenever used_entries > 0' if bad else 'no success return with entries seen'))
+    return n
+
+
 # ---------------------------------------------------------------------------------------------------------
 def run(chk, P):
     r02_6(chk, P)
@@ -393,6 +436,8 @@ def run(chk, P):
     chk.floor('R02.7', 2)
     r02_8(chk, P)
     chk.floor('R02.8', 1)
+    r02_9(chk, P)
+    chk.floor('R02.9', 3)
     D = k4dec.decode_driver(P)
     r02_1(chk, P, D)
     chk.floor('R02.1', 45)
